@@ -1,9 +1,14 @@
 #!/bin/bash
-# run every claimed check (quick by default) on /repo and summarise
-cd /verif
+# run every claimed check (quick by default) and summarise.  Runs the /verif tree this script lives in
+# (a `vp run` snapshot runs its own copy and keeps its evidence/replay files there via VERIF_OUT).
+HERE=$(cd "$(dirname "$0")/.." && pwd)
+cd "$HERE"
 TIER=${1:-quick}
-for P in $(cat vt/claimed.txt); do
+shift
+LIST=${@:-$(cat vt/claimed.txt)}
+if [ "$HERE" != /verif ]; then export VERIF_OUT="$HERE/out"; mkdir -p "$VERIF_OUT"; fi
+for P in $LIST; do
   S=$(date +%s)
-  ./check $P $TIER > /dev/shm/runall-$P.log 2>&1; C=$?
-  echo "$P exit=$C $(( $(date +%s) - S ))s $(grep -c '^VIOLATION' /dev/shm/runall-$P.log) violations $(grep -c '^KNOWN-FINDING' /dev/shm/runall-$P.log) known"
+  ./check $P $TIER > /dev/shm/runall-$TIER-$P.log 2>&1; C=$?
+  echo "$P exit=$C $(( $(date +%s) - S ))s $(grep -c '^VIOLATION' /dev/shm/runall-$TIER-$P.log) violations $(grep -c '^KNOWN-FINDING' /dev/shm/runall-$TIER-$P.log) known"
 done
